@@ -18,6 +18,7 @@ import (
 	"context"
 	"fmt"
 	"io"
+	"sync"
 
 	"cuelabs.dev/go/oci/ociregistry"
 	"cuelabs.dev/go/oci/ociregistry/ociref"
@@ -77,8 +78,28 @@ func (r *Registry) PushBlobChunkedResume(ctx context.Context, repoName, id strin
 		}, id)
 		repo.uploads[b.ID()] = b
 	}
-	b.setCheckStartOffset(offset)
-	return b, nil
+	return &resumedWriter{Buffer: b, checkStartOffset: offset}, nil
+}
+
+// resumedWriter is the [ociregistry.BlobWriter] returned by one call to
+// PushBlobChunkedResume. The start offset given to that call applies to
+// the first write made through this handle only, so that several
+// handles on one upload cannot satisfy or disarm each other's check.
+type resumedWriter struct {
+	*Buffer
+	mu               sync.Mutex
+	checkStartOffset int64
+}
+
+func (w *resumedWriter) Write(data []byte) (int, error) {
+	w.mu.Lock()
+	defer w.mu.Unlock()
+	n, err := w.Buffer.writeAt(data, w.checkStartOffset)
+	if err == nil {
+		// Only check on the first write, since it's the start offset.
+		w.checkStartOffset = -1
+	}
+	return n, err
 }
 
 func (r *Registry) MountBlob(ctx context.Context, fromRepo, toRepo string, dig ociregistry.Digest) (ociregistry.Descriptor, error) {
